@@ -145,14 +145,15 @@ theorem overread_reported_spec (n : Nat) (bs : Bits) (h : bs.length < n) : readB
     | nil => simp [readBitsAux]
     | cons b l => simp only [readBitsAux]; exact ih l _ (by simpa using hl)
 
-/-- ... but NOT for the Go bit reader: a reader over the single byte 0xFF returns bits 8..15
-    as zeros with no error (finding `overread-56`). The full statement is therefore false for
-    `BitsReader`; byte columns (varints, strings) report every over-read. -/
-theorem overread_reported_false :
+/-- the Go bit reader (after fix f47ea21: `Error()` reports consumed padding bits): a reader over
+    the single byte 0xFF returns an error as soon as a bit past the end has been consumed. This is
+    a TEST on one input (labelled as such); the general statement for `BitsReader` needs the
+    register refinement of the reader, which is tied by op-for-op correspondence only. -/
+theorem overread_reported_bitsreader_test :
     let r0 : BitsReader := { buf := [0xFF#8] }
     let (r1, _) := r0.readBits 8
-    let (r2, v) := r1.readBits 8
-    v = 0#64 ∧ r2.eof = false := by decide
+    let (r2, _) := r1.readBits 1
+    r1.err = false ∧ r2.err = true := by decide
 
 -- non-vacuity: a reachable, partially filled register satisfies the invariant, a spilling
 -- write is covered, and a codec state reached after real values satisfies `Ok`.
